@@ -1,14 +1,49 @@
 """Contracts on pysmi/lexer/smi.py (token rules)."""
 from pyvc.contract import *
 
-TOK = lambda **k: Obj('LexToken', value=Str, type=Str, lineno=Int, lexpos=Int,
-                      lexer=Obj('Lexer', lineno=Int), **k)
+TOK = lambda **k: Obj('LexToken', value=Str, type=Str, lineno=Int, lexpos=Int, lexer=LexerObj(), **k)
+LX = Obj('SmiV2Lexer')
+FILE = 'pysmi/lexer/smi.py'
+TERM = r'\r\n|\n|\r'
+# NL(s): number of line terminators in s = len(re.findall(r'\r\n|\n|\r', s))  (re is trusted)
+NOCHANGE = 't.value == old(t.value) and t.type == old(t.type) and t.lineno == old(t.lineno)'
+
+
+def rule(name, regex, ensures, requires=(), raises=None, loops=None, serves=('C11', 'C02')):
+    ens = {k: v for k, v in ensures.items()}
+    return Contract(id='lexer.' + name, file=FILE, func='SmiV2Lexer.' + name, serves=list(serves),
+                    params={'self': LX, 't': TOK()}, requires=['matches(t.value, %r)' % regex] + list(requires),
+                    ensures=ens, raises=raises or {}, loops=loops or {}, returns=Any,
+                    notes=['regex=' + regex])
+
+
+def skip_rule(name, regex, state=None, counts='NL(old(t.value))'):
+    """a rule that yields no token: returns None; line accounting; optional state switch"""
+    e = {'no_token': 'not raised and result is None',
+         'line_accounting': 't.lexer.lineno == old(t.lexer.lineno) + %s' % counts,
+         'token_untouched': NOCHANGE}
+    if state is None:
+        e['state_kept'] = 't.lexer.state == old(t.lexer.state) and t.lexer.begins == 0'
+    else:
+        e['state_switched'] = 't.lexer.state == %r and t.lexer.begins == 1' % state
+    return rule(name, regex, e)
+
+
+def token_rule(name, regex, state=None):
+    e = {'token_returned_unchanged': 'not raised and result is t and ' + NOCHANGE,
+         'line_accounting': 't.lexer.lineno == old(t.lexer.lineno)'}
+    if state is None:
+        e['state_kept'] = 't.lexer.state == old(t.lexer.state) and t.lexer.begins == 0'
+    else:
+        e['state_switched'] = 't.lexer.state == %r and t.lexer.begins == 1' % state
+    return rule(name, regex, e)
+
 
 CONTRACTS = [
     Contract(
         id='lexer.t_NUMBER', file='pysmi/lexer/smi.py', func='SmiV2Lexer.t_NUMBER', serves=['C05', 'C02', 'C11'],
         params={'self': Obj('SmiV2Lexer'), 't': TOK()},
-        requires=["matches(t.value, '-?[0-9]+')", "t.type == 'NUMBER'"],
+        requires=["matches(t.value, '-?[0-9]+')", "t.type == 'NUMBER'"], notes=['regex=-?[0-9]+'],
         let={'v': 'py_int(t.value)', 'M32': '4294967295', 'M64': '18446744073709551615'},
         ensures={
             'value': 'implies(not raised, result is t and t.value == v)',
@@ -21,4 +56,39 @@ CONTRACTS = [
         },
         raises={'PySmiLexerError': 'v > M64 or v < -M64'},
     ),
+    # ---- line ends: exactly one per match
+    skip_rule('t_newline', TERM, counts='1'), skip_rule('t_macro_newline', TERM, counts='1'),
+    skip_rule('t_exports_newline', TERM, counts='1'), skip_rule('t_choice_newline', TERM, counts='1'),
+    skip_rule('t_comment_newline', TERM, state='INITIAL', counts='1'),
+    # ---- blocks that are not tokens: every line end inside them still counts (C11 line accounting)
+    skip_rule('t_macro_body', '.+?(?=END)'), skip_rule('t_exports_body', '[^;]+'),
+    skip_rule('t_choice_body', r'[^\}]+'), skip_rule('t_comment_body', r'[^\r\n]+'),
+    skip_rule('t_exports_end', ';', state='INITIAL'), skip_rule('t_choice_end', r'\}', state='INITIAL'),
+    skip_rule('t_begin_comment', '--', state='comment'),
+    token_rule('t_MACRO', 'MACRO', state='macro'), token_rule('t_EXPORTS', 'EXPORTS', state='exports'),
+    token_rule('t_CHOICE', 'CHOICE', state='choice'), token_rule('t_macro_END', 'END', state='INITIAL'),
+    # ---- identifiers
+    rule('t_UPPERCASE_IDENTIFIER', '[A-Z][-a-zA-z0-9]*', {
+        'forbidden_word_is_a_located_error': 'implies(old(t.value) in self.forbidden_words, raised and exc.lineno == old(t.lineno))',
+        'trailing_hyphen_is_a_located_error': 'implies(old(t.value).endswith("-"), raised and exc.lineno == old(t.lineno))',
+        'reserved_word_gets_its_token': 'implies(not raised, result is t and t.value == old(t.value) and '
+                                        'same(t.type, self.reserved.get(old(t.value), "UPPERCASE_IDENTIFIER")))',
+        'line_accounting': 't.lexer.lineno == old(t.lexer.lineno) and t.lineno == old(t.lineno)'},
+        raises={'PySmiLexerError': 'old(t.value) in self.forbidden_words or old(t.value).endswith("-")'}),
+    rule('t_LOWERCASE_IDENTIFIER', '[0-9]*[a-z][-a-zA-z0-9]*', {
+        'trailing_hyphen_is_a_located_error': 'implies(old(t.value).endswith("-"), raised and exc.lineno == old(t.lineno))',
+        'identifier_unchanged': 'implies(not raised, result is t and ' + NOCHANGE + ')',
+        'line_accounting': 't.lexer.lineno == old(t.lexer.lineno)'},
+        raises={'PySmiLexerError': 'old(t.value).endswith("-")'}),
+    rule('t_BIN_STRING', "\\'[01]*\\'[bB]", {'literal_unchanged': 'not raised and result is t and ' + NOCHANGE,
+                                           'line_accounting': 't.lexer.lineno == old(t.lexer.lineno)'},
+         loops={1: {'invariant': ['True']}}, serves=('C02', 'C05', 'C11')),
+    rule('t_HEX_STRING', "\\'[0-9a-fA-F]*\\'[hH]", {'literal_unchanged': 'not raised and result is t and ' + NOCHANGE,
+                                                  'line_accounting': 't.lexer.lineno == old(t.lexer.lineno)'},
+         loops={1: {'invariant': ['True']}}, serves=('C02', 'C05', 'C11')),
+    rule('t_QUOTED_STRING', '\\"[^\\"]*\\"', {
+        'text_unchanged': 'not raised and result is t and ' + NOCHANGE,
+        'line_accounting': 't.lexer.lineno == old(t.lexer.lineno) + NL(old(t.value))'}, serves=('C02', 'C11', 'C15')),
+    rule('t_error', '.+', {'illegal_character_is_a_located_error': 'raised and exc.lineno == old(t.lineno)'},
+         raises={'PySmiLexerError': True}, serves=('C11',)),
 ]
